@@ -234,10 +234,23 @@ def seq_of(eng, st, v, node=None):
     raise Unsupported("not a sequence: %r (line %s)" % (v, getattr(node, "lineno", "?")))
 
 
+def _trunc(v):
+    """int(v) for a real term v, pushed through if-then-else and cancelled against to_real (keeps the arithmetic linear and shallow)"""
+    v = z3.simplify(v)
+    if z3.is_rational_value(v):
+        fr = v.as_fraction()
+        import math
+        return z3.IntVal(math.trunc(fr))
+    if z3.is_app(v) and v.decl().kind() == z3.Z3_OP_TO_REAL:
+        return v.arg(0)
+    if z3.is_app(v) and v.decl().kind() == z3.Z3_OP_ITE:
+        return z3.If(v.arg(0), _trunc(v.arg(1)), _trunc(v.arg(2)))
+    return z3.If(v >= 0, z3.ToInt(v), -z3.ToInt(-v))
+
+
 def to_int_trunc(eng, st, f, node):
     eng.oblige(st, "int() of a finite number", f.is_fin(), "safety", node)
-    fl = z3.ToInt(f.val)
-    return VInt(z3.If(f.val >= 0, fl, -z3.ToInt(-f.val)))
+    return VInt(_trunc(f.val))
 
 
 # ----- builtins --------------------------------------------------------------------------------
